@@ -29,8 +29,8 @@ PROPS = {
                     "separate logical-time model (UdpSess: c02_udp_active_session — an active remote keeps ONE session because every "
                     "datagram renews the deadline), run by gatedrv in the timed UDP cases (real time, 300 ms timeout, gaps of 0.6 x "
                     "timeout, one-sided: a close that comes late is not judged, an overslept wait ends the comparison); the model admits spurious reports and does not model write interest, so 'readers go idle' is "
-                    "proved for the internal steps between reports and MEASURED (idle CPU in a 60 ms window, incl. after an immediate "
-                    "DialAsync connect) on real sockets; NPoller only selects the poller; read-call counters on the simulated kernel; "
+                    "proved for the internal steps between reports and MEASURED on real sockets (poller wake-ups and read calls on real "
+                    "descriptors while no input is pending, five 60 ms windows, incl. after an immediate DialAsync connect); NPoller only selects the poller; read-call counters on the simulated kernel; "
                     "the executor is not a model parameter: task steps interleave arbitrarily, assuming any IOExecute runs each submitted "
                     "task exactly once; def/park/real are harness wrappers; c02_udp_demux assumes well-formed addresses of one family; "
                     "attribution of stream data among several live conns (descriptor table lookup, events of several conns in one batch, "
